@@ -351,6 +351,17 @@ def _build_and_run(tier, seed, profiles, decls_override=None):
     timing["classify_s"] = time.time() - t0
     log("rustc accepts %d of %d declarations" % (len(accepted_set), len(decls)))
 
+    # ---- the same classification with the proc macro built by the release profile (no overflow checks in the macro) ----
+    t0 = time.time()
+    alive_r = set(d["name"] for d in decls)
+    alive_r, _, _, okr0 = cargo_iterate(ws, ["check", "--release", "-p", "c0"], lambda a: write_sources(a, False), alive_r, "classify-release-c0", env=env)
+    alive_r, _, _, okr1 = cargo_iterate(ws, ["check", "--release"] + sum([["-p", "c%d" % i] for i in range(1, NCHUNK + 1)], []),
+                                        lambda a: write_sources(a, False), alive_r, "classify-release", env=env)
+    accepted_release = set(alive_r) if (okr0 and okr1) else None
+    # restore the sources of the dev classification
+    write_sources(accepted_set, False)
+    timing["classify_release_s"] = time.time() - t0
+
     # ---- surfaces from the dumps ---------------------------------------------------------------
     dump_texts = {}
     for d in decls:
@@ -635,6 +646,7 @@ def _build_and_run(tier, seed, profiles, decls_override=None):
         "decls": decls,
         "rustc_accepted": sorted(accepted_set),
         "rustc_rejected": rejected,
+        "rustc_accepted_release": None if accepted_release is None else sorted(accepted_release),
         "unattributed": unattr,
         "surfaces": {k: [list(x) for x in v] for k, v in surfaces.items()},
         "token_scan": token_scan,
